@@ -39,7 +39,7 @@ def one(ctx, spec, inputs, runner, label, loop_ref=None, deterministic=True):
     if o.exc is not None:
         ctx.violation("C17:raised:" + type(o.exc).__name__, f"run raised {o.exc!r}", case)
         return
-    bad, n = monitors.wait_rules(o.rec, spec)
+    bad, n = monitors.wait_rules(o.rec, spec, inputs)
     for k, v in n.items():
         ctx.obs[k] += v
     for key, what in bad[:2]:
@@ -146,4 +146,28 @@ def run(ctx):
             for variant, s in (("orig", spec), ("shuffled", gen.shuffled(rng, spec))):
                 for runner in (("async",) if has_int else ("sync", "async")):
                     one(ctx, s, inputs, runner, f"dag-{variant}-{runner}")
+            early = False
+            try:
+                R0 = ref.ref_eval(spec, inputs)
+                early = len(R0.once) != len(R0.args)
+            except ref.Ambiguous:
+                early = True
+            if has_int and not early:
+                # (with a node upstream that first runs on a fallback value the interrupt is
+                # re-executed when the real value arrives and asks again - by design, as in cycles)
+                # pause/resume history: the interrupt pauses first and completes through the
+                # resume path in the second run; its signal must still reach the waiters
+                sp = copy.deepcopy(spec)
+                for ns in sp["nodes"]:
+                    if ns["k"] == "int":
+                        ns["handler"] = "pause"
+                        out_name = ns["outs"][0]
+                o1 = core.execute(sp, inputs, "async")
+                ctx.obs["pause_resume_histories"] += 1
+                if o1.status == "paused" and o1.pause is not None:
+                    inputs2 = dict(inputs)
+                    inputs2[o1.pause.response_key] = "answer:resumed"
+                    one(ctx, sp, inputs2, "async", "dag-resume-async")
+                elif o1.status != "completed":
+                    ctx.violation("C17:pause-expected", f"interrupt with a pausing handler: status {o1.status} {o1.exc!r}", {"spec": sp, "inputs": inputs})
             ctx.case({"s": gen.shape_of(spec)}, any(ns.get("wait") for ns in spec["nodes"]), sample={"spec": spec, "inputs": inputs} if i < 2 else None)
